@@ -85,10 +85,10 @@ def match(source: str, pos: int, opt: dict=None) -> MatchedTag:
                 return False
         else:
             tag = stack and stack[-1]
-            if tag and tag.name == name:
+            if tag and is_pair(tag.name, name, options):
                 # Matching closing tag found
                 if tag.start < pos < end:
-                    result[0] = MatchedTag(name, get_attributes(source, tag.start, tag.end, name), (tag.start, tag.end), (start, end))
+                    result[0] = MatchedTag(tag.name, get_attributes(source, tag.start, tag.end, tag.name), (tag.start, tag.end), (start, end))
                     return False
 
                 if stack:
@@ -112,12 +112,12 @@ def balanced_outward(source: str, pos: int, opt: dict=None) -> list:
     def scan_callback(name: str, elem_type: ElementType, start: int, end: int):
         if elem_type == ElementType.Close:
             tag = stack and stack[-1]
-            if tag and tag.name == name:
+            if tag and is_pair(tag.name, name, options):
                 # XXX check for invalid tag names?
                 # Matching closing tag found, check if matched pair is a candidate
                 # for outward balancing
                 if tag.start < pos < end:
-                    result.append(BalancedTag(name, (tag.start, tag.end), (start, end)))
+                    result.append(BalancedTag(tag.name, (tag.start, tag.end), (start, end)))
                 # Release tag object for further re-use
                 release_tag(pool, stack.pop())
         elif elem_type == ElementType.SelfClose or is_self_close(name, options):
@@ -166,12 +166,12 @@ def balanced_inward(source: str, pos: int, opt: dict=None) -> list:
                 return
 
             tag = stack[-1]
-            if tag.name == name:
+            if is_pair(tag.name, name, options):
                 # XXX check for invalid tag names?
                 # Matching closing tag found, check if matched pair is a candidate
                 # for outward balancing
                 if tag.ranges[0] <= pos <= end:
-                    result.append(BalancedTag(name, (tag.ranges[0], tag.ranges[1]), (start, end)))
+                    result.append(BalancedTag(tag.name, (tag.ranges[0], tag.ranges[1]), (start, end)))
 
                     while tag.first_child:
                         child = tag.first_child
@@ -234,6 +234,12 @@ def get_attributes(source: str, start: int, end: int, name: str=None):
             attr.value_end += start
 
     return attrs
+
+
+def is_pair(open_name: str, close_name: str, options: ScannerOptions):
+    "Check if closing tag with given name closes given open tag"
+    # HTML tag names are case-insensitive: `<DIV></div>` is a pair as well
+    return open_name == close_name or (not options.xml and open_name.lower() == close_name.lower())
 
 
 def is_self_close(name: str, options: ScannerOptions):
